@@ -63,8 +63,9 @@ def _ctor_params(ck, cls_qual):
 def check_versioned_key_codec(ck, R4):
     ev = FA(ck, MC + ".encode_versioned_data_source_key")
     dv = FA(ck, MC + ".decode_versioned_data_source_key")
-    fm = [c for c in ev.calls("format")]
-    ok4 = len(fm) == 1 and A.const_str(A.call_recv(fm[0])) == "{}#{}" and [A.norm(a) for a in fm[0].args] == ["content_key.key", "content_key.version"]
+    tm = [A.str_template(r.value) for r in ev.returns() if r.value is not None and not A.is_none(r.value)]
+    tm = [t for t in tm if t is not None]
+    ok4 = len(tm) == 1 and tm[0][0] == "{}#{}" and [A.norm(a) for a in tm[0][1]] == ["content_key.key", "content_key.version"]
     ck.ob(R4, ev.key(None, "join"), ok4, "key#version" if ok4 else "versioned keys are not written as '{}#{}'.format(key, version)", ev.where())
     rf = [c for c in dv.calls("rfind")]
     ok5 = len(rf) == 1 and A.const_str(rf[0].args[0]) == "#" and not dv.calls("find") and not dv.calls("split")
